@@ -6,6 +6,7 @@ import Mathlib.Tactic.Ring
 import Mathlib.Algebra.Ring.Basic
 import Qvnt.Lemmas.Queue
 import Qvnt.Lemmas.GenInt.int_add_ast_eq
+import Qvnt.Lemmas.GenMacro.KeysNodup
 
 set_option linter.unusedSectionVars false
 namespace Qvnt.Gen2
@@ -17,7 +18,8 @@ variable [Add R] [Sub R] [Mul R] [Neg R] [Div R] [ExprFns R] [AngleFns R]
 theorem int_new_eq [Zero R] [One R] [Consts R] (ast : List (Node R)) :
     int_new ast = (Interp.new ast : Res (Interp R)).toE := by
   unfold int_new Interp.new
-  simp only [int_add_ast_eq]
+  have hs : KeysNodup ({} : Interp R).macros := List.nodup_nil
+  simp only [int_add_ast_eq _ hs]
   cases Interp.addAst ({} : Interp R) ast <;> rfl
 
 end proc
